@@ -283,6 +283,29 @@ def check_rm(ctx, drv):
         alltraces += traces
     judge(ctx, "Trace_LimitsRM", alltraces, rm_describe, chunk=ctx.pick(400, 500))
 
+    if getattr(ctx, "selftest", False):
+        # regression of the trace spec itself: a legal history that needs Drop(cancelled waiter) BEFORE the notifications
+        # that the manager delivers between the call and the return of Stats (once wrongly rejected by a too eager reduction)
+        def E(**k):
+            d = dict(RM_DEFAULTS)
+            d.update(k)
+            return d
+        h = [E(op="Init", limit=2, ng=4, mode="disc"),
+             E(op="call", g=1, f="Request", id=1, key=1, n=2, acq=True), E(op="ret", g=1, f="Request", id=1, acq=True),
+             E(op="call", g=1, f="Request", id=3, key=1, n=1), E(op="ret", g=1, f="Request", id=3),
+             E(op="call", g=2, f="Request", id=5, key=2, n=1, nt=1), E(op="ret", g=2, f="Request", id=5),
+             E(op="call", g=2, f="Request", id=6, key=2, n=1, nt=1),
+             E(op="call", g=1, f="Release", id=1, key=1, n=2), E(op="ret", g=1, f="Release", id=1),
+             E(op="Cancel", g=1, id=3),
+             E(op="call", g=1, f="Stats", size=0, objects=0, pending=1),
+             E(op="ret", g=2, f="Request", id=6),
+             E(op="Notified", g=2, id=5), E(op="Notified", g=2, id=6),
+             E(op="ret", g=1, f="Stats", size=0, objects=0, pending=1)]
+        one = ctx.path("regress.ndjson")
+        write_traces(one, [h, [{"op": "End"}]])
+        if not ctx.tlc_validate("Trace_LimitsRM", one, ntraces=0)["ok"]:
+            raise vlib.MachineryError("selftest Trace_LimitsRM: legal regression history rejected")
+
     def corrupt_rm(t):
         e = next(e for e in t if e["op"] == "call" and e["f"] == "Stats" and e["hung"] == 0)
         e["size"] += 1
